@@ -69,6 +69,7 @@ struct Spec {
     int expiry = -1;
     bool check_tasks = false;   // C07 oracle
     bool check_stop = false;    // C08 oracle
+    int spurious = 0;           // spurious wake-ups of waiting workers the scheduler may generate per execution (each costs 1 from the bound)
 };
 
 struct TaskInfo { int submit = -1, enter = -1, exit = -1, destroy = -1, enters = 0, destroys = 0, run_tid = -1; bool must_run = false; };
@@ -183,9 +184,10 @@ std::string ev_name(const vs_ev &e) {
 
 void add(VSuite &suite, Spec s, int bound, const std::string &flavour) {
     VProgram p;
-    p.name = s.script + "-max" + std::to_string(s.maxThreads) + (s.expiry >= 0 ? "-expiry" + std::to_string(s.expiry) : "");
+    p.name = s.script + "-max" + std::to_string(s.maxThreads) + (s.expiry >= 0 ? "-expiry" + std::to_string(s.expiry) : "") + (s.spurious ? "+spurious" : "");
+    p.spurious = s.spurious;
     p.describe = "owner script " + s.script + " (S start task, F start a functor through the template start(), C clear, X stop, W wait until all submitted tasks are destroyed, U update, A advance the clock past the expiry timeout, G getters), maxThreadCount=" +
-                 std::to_string(s.maxThreads) + ", expiryTimeout=" + std::to_string(s.expiry) + "; every task has a scheduling point inside run()";
+                 std::to_string(s.maxThreads) + ", expiryTimeout=" + std::to_string(s.expiry) + "; every task has a scheduling point inside run()" + (s.spurious ? "; one spurious wake-up of a waiting worker may happen anywhere (costs 1 like a preemption)" : "");
     p.bound = bound;
     p.unlock_points = true;         // ThreadPool publishes flags outside its mutexes: make every release a scheduling point
     p.body = [s] { run(s); };
@@ -210,7 +212,7 @@ bool provider(const std::string &prop, const std::string &tier, const std::strin
     suite.rule = "every schedule of the owner thread and the worker threads with at most c preemptions (scheduling points at lock / unlock / cond-wait / re-acquire / notify / thread create+exit+join and inside every task), "
                  "every notify_one target, for each listed owner script and c = 0..bound; non-trivial = some thread really blocked";
     suite.assumptions = {"sequential consistency at synchronisation-step granularity (data races are what C15 checks on the same programs)", "non-expiring workers (expiry timeout -1) unless the program name says otherwise",
-                         "no spurious condition-variable wake-ups are generated", "one owner thread; bounded scripts, task counts, worker counts and preemption bounds as listed per program"};
+                         "spurious condition-variable wake-ups are generated only in the programs marked +spurious (one per execution, costing 1 deviation)", "one owner thread; bounded scripts, task counts, worker counts and preemption bounds as listed per program"};
     if (prop == "C07") suite.relevant = [](int o, const std::string &m, const std::string &) { return o == VS_OUT_ORACLE || o == VS_OUT_CRASH || (o == VS_OUT_DEADLOCK && m.find("t0:blocked-in-harness-wait") != std::string::npos); };
     if (prop == "C08") suite.relevant = [](int o, const std::string &m, const std::string &) { return o == VS_OUT_ORACLE || (o == VS_OUT_DEADLOCK && m.find("t0:blocked-in-harness-wait") == std::string::npos); };
     int b = thorough ? 4 : 3;
@@ -224,6 +226,8 @@ bool provider(const std::string &prop, const std::string &tier, const std::strin
     { Spec s = base; s.script = "SSCSX"; s.maxThreads = 2; add(suite, s, 2, flavour); }
     { Spec s = base; s.script = "FFWX"; s.maxThreads = 2; add(suite, s, 2, flavour); }          // template start(T, Args&&...)
     { Spec s = base; s.script = "FSCFX"; s.maxThreads = 1; add(suite, s, 3, flavour); }
+    // spurious wake-ups of idle workers (POSIX allows them for every condition wait)
+    for (int mt : {1, 2}) for (const char *sc : {"SWX", "SWSWX", "SCSWX", "SXSWX"}) { Spec s = base; s.script = sc; s.maxThreads = mt; s.spurious = 1; add(suite, s, thorough ? 3 : 2, flavour); }
     if (thorough) {
         { Spec s = base; s.script = "SSSWX"; s.maxThreads = 3; add(suite, s, 2, flavour); }
         { Spec s = base; s.script = "SSSSWX"; s.maxThreads = 2; add(suite, s, 2, flavour); }
